@@ -216,7 +216,8 @@ func (f *RepeatingGroup) Read(tv []TagValue) ([]TagValue, error) {
 		}
 
 		group.rwLock.Lock()
-		group.tagLookup[tvRange[0].tag] = tvRange
+		// (only what this member consumed: not the rest of the message behind it)
+		group.tagLookup[tvRange[0].tag] = tvRange[:len(tvRange)-len(tv)]
 		group.tags = append(group.tags, gi.Tag())
 		group.rwLock.Unlock()
 	}
